@@ -309,6 +309,10 @@ class FakeSock:
         self.world.sched_point('send')
         if self.state != 'connected' or self.closed:
             raise BrokenPipeError(errno.EPIPE, 'Broken pipe')
+        if getattr(self, 'send_fails', None) is not None:
+            # the peer has gone away after queueing what it had to say: writing fails, what was received can still be read
+            self.world.log(ev='sendfail', n=self.n, err=self.send_fails)
+            raise (BrokenPipeError if self.send_fails == errno.EPIPE else ConnectionResetError)(self.send_fails, os.strerror(self.send_fails))
         data = bytes(data)
         self.peer.on_data(self, data)
         return len(data)
